@@ -175,10 +175,12 @@ def r_configs(tier):
         for loops in (2, -1):
             for cache in (True, 2):
                 out.append(cf(2, loops, cache, 100, "E0", "small"))
-            for cache, prof in ((True, "tiny"), (3, "dur"), (4, "args"), (True, "size"), (3, "pad")):
-                out.append(cf(3, loops, cache, 100, "E0", prof))
+        for cache, prof in ((True, "tiny"), (3, "dur"), (4, "args"), (True, "size"), (3, "pad"), (True, "one")):
+            out.append(cf(3, 2, cache, 100, "E0", prof))
+        out.append(cf(3, -1, 3, 100, "E0", "one"))
+        out.append(cf(3, -1, True, 100, "E0", "dur"))
         out.append(cf(2, 3, 3, "DYN", "Arel", "small"))
-        out.append(cf(3, 3, True, "DYN", "E0", "tiny"))
+        out.append(cf(3, 3, True, "DYN", "E0", "one"))
         out.append(cf(2, 2, 1, 100, "E0", "wide"))                      # disabled by cache < n
         out.append(cf(3, 2, 2, 100, "E0", "small"))                     # disabled by cache < n
         out.append(cf(4, 2, True, 100, "E0", "dur"))
@@ -376,7 +378,7 @@ def i_ops(alpha="full", frames=NFRAMES):
     if alpha == "quick":
         return ([("next",), ("close",), ("resize",)] + [("seek", k) for k in (0, n - 1, n)]
                 + [("size", s) for s in ("A", "D")])
-    return ([("next",), ("close",), ("resize",)] + [("seek", k) for k in range(-1, n + 1)]
+    return ([("next",), ("close",), ("resize",)] + [("seek", k) for k in (-1, 0, n - 1, n)]
             + [("size", s) for s in ("A", "B", "D")])
 
 
